@@ -7,6 +7,8 @@ import (
 	"fmt"
 	"io"
 	"os"
+	"os/exec"
+	"path/filepath"
 	"runtime"
 	"runtime/debug"
 	"sort"
@@ -141,6 +143,28 @@ func families() []family {
 			`{{- range .Values.containers }}{{ $_ := set . "name" (printf "%s-%s" $.Release.Name .name) }}{{ end -}}`+"\n"+
 				cm("li", "  names: {{ .Values.containers | toJson | quote }}\n")))
 	}
+	// two charts whose values.schema.json share a $id but differ in content: whatever one render compiled must not
+	// decide what a later render (or a sibling chart of the same render) is validated against
+	schemaID := func(strict bool) func(*chart.Chart) {
+		return func(c *chart.Chart) {
+			typ := "integer"
+			if strict {
+				typ = "string"
+			}
+			c.Values["n"] = 1
+			c.Schema = []byte(`{"$schema":"http://json-schema.org/draft-07/schema#","$id":"https://verif.test/schemas/values.json","type":"object","properties":{"n":{"type":"` + typ + `"}}}`)
+			c.Templates = append(c.Templates, f("templates/sid.yaml", cm("sid", "  n: {{ .Values.n | quote }}\n")))
+		}
+	}
+	siblingSchemas := func(c *chart.Chart) {
+		mk := func(name, typ string) *chart.Chart {
+			s := sub(name, f("templates/s.yaml", cm(name+"cm", "  n: {{ .Values.n | quote }}\n")))
+			s.Values = map[string]any{"n": 1}
+			s.Schema = []byte(`{"$id":"https://verif.test/schemas/sub.json","type":"object","properties":{"n":{"type":"` + typ + `"}}}`)
+			return s
+		}
+		c.AddDependency(mk("sa", "integer"), mk("sb", "string"))
+	}
 	caps := func(c *chart.Chart) {
 		c.Templates = append(c.Templates, f("templates/caps.yaml", cm("caps", "  hasA: {{ .Capabilities.APIVersions.Has \"verif.a/v1\" | quote }}\n  hasB: {{ .Capabilities.APIVersions.Has \"verif.b/v1\" | quote }}\n  kube: {{ .Capabilities.KubeVersion.Version | quote }}\n  rel: {{ .Release.Name | quote }}\n")))
 	}
@@ -153,7 +177,7 @@ func families() []family {
 			return c
 		}
 	}
-	single := map[string]func(*chart.Chart){"edits-default-list-items": listItems, "tpl-fails-midway": tplFails, "two-failing": twoFailing, "cross-file-values": crossFile, "capabilities": caps, "multi-kind": multiKind, "dup-define": dupDefine, "notes": notes, "tpl-include": tplInclude, "files": files,
+	single := map[string]func(*chart.Chart){"schema-id-lenient": schemaID(false), "schema-id-strict": schemaID(true), "sibling-schemas-same-id": siblingSchemas, "edits-default-list-items": listItems, "tpl-fails-midway": tplFails, "two-failing": twoFailing, "cross-file-values": crossFile, "capabilities": caps, "multi-kind": multiKind, "dup-define": dupDefine, "notes": notes, "tpl-include": tplInclude, "files": files,
 		"sub-defines": subDefines, "globals": globals, "import-values": importValues}
 	var names []string
 	for n := range single {
@@ -345,7 +369,9 @@ func fieldOf(o outputs, name string) string {
 }
 
 type detReplay struct {
-	After     *variant    `json:"after,omitempty"` // history independence: Variant rendered after this one
+	FreshWant string      `json:"fresh_want,omitempty"` // hash the same variant produced late in a long-running worker
+	Fresh     bool        `json:"fresh,omitempty"`      // only compute Variant's outputs in this (fresh) process and report their hash
+	After     *variant    `json:"after,omitempty"`      // history independence: Variant rendered after this one
 	CapsReuse []string    `json:"caps_reuse,omitempty"`
 	Variant   variant     `json:"variant"`
 	Base      variant     `json:"base"`
@@ -398,6 +424,18 @@ func replayDeterminism(c *core.Ctx, data json.RawMessage) []core.Violation {
 		first, third := capsReuse(fams, rd.Variant.Family, rd.CapsReuse[0], rd.CapsReuse[1])
 		if first != third {
 			return core.FilterKey([]core.Violation{{Property: prop, Key: rd.Key, What: firstDiff(first, third), Replay: data}}, rd.Key)
+		}
+		return nil
+	}
+	if rd.Fresh {
+		o, _ := execute(fams, rd.Variant, nil)
+		return []core.Violation{{Property: prop, Key: "fresh|" + outputsHash(o), What: "outputs of a fresh process", Replay: data}}
+	}
+	if rd.FreshWant != "" {
+		// a violation found by the fresh-process comparison: this process IS a fresh one
+		o, _ := execute(fams, rd.Variant, nil)
+		if h := outputsHash(o); h != rd.FreshWant {
+			return core.FilterKey([]core.Violation{{Property: prop, Key: rd.Key, What: "fresh process gives " + h + ", the long-running worker gave " + rd.FreshWant, Replay: data}}, rd.Key)
 		}
 		return nil
 	}
@@ -491,6 +529,46 @@ func capsReuse(fams []family, famIdx int, extraA, extraB string) (string, string
 	return first, third
 }
 
+func outputsHash(o outputs) string {
+	return core.ShortHash([]byte(o.Manifest + "\x00" + o.Hooks + "\x00" + o.Notes + "\x00" + o.Render + "\x00" + o.Err))
+}
+
+// freshHash computes the outputs of v in a NEW process (the harness binary's own replay mode) and returns their hash.
+func freshHash(v variant) (string, error) {
+	self, err := os.Executable()
+	if err != nil {
+		return "", err
+	}
+	dir, err := os.MkdirTemp("/var/tmp", "vc05-fresh-")
+	if err != nil {
+		return "", err
+	}
+	defer os.RemoveAll(dir)
+	rb, _ := json.Marshal(wrap("determinism", detReplay{Fresh: true, Variant: v, Base: v}))
+	vb, _ := json.Marshal(core.Violation{Property: prop, Key: "fresh", Replay: rb})
+	file := filepath.Join(dir, "fresh.json")
+	if err := os.WriteFile(file, vb, 0o644); err != nil {
+		return "", err
+	}
+	out, _ := exec.Command(self, "replay", file, "--quiet").CombinedOutput()
+	for _, l := range strings.Split(string(out), "\n") {
+		if i := strings.Index(l, `"fresh|`); strings.HasPrefix(l, "REPLAY-OBSERVATION ") && i >= 0 {
+			rest := l[i+len(`"fresh|`):]
+			if j := strings.Index(rest, `"`); j >= 0 {
+				return rest[:j], nil
+			}
+		}
+	}
+	return "", fmt.Errorf("no observation from the fresh process: %s", firstLine(string(out)))
+}
+
+func firstLine(s string) string {
+	if i := strings.Index(s, "\n"); i >= 0 {
+		return s[:i]
+	}
+	return s
+}
+
 // afterProbe renders y, then x, then y again in one process on one P (so that
 // process-wide caches and pools behave deterministically) and requires the
 // two outputs of y to be equal: a render must not depend on what was rendered
@@ -551,6 +629,30 @@ func runDeterminism(c *core.Ctx) {
 				} else {
 					c.Outcome("after-probe:same-output")
 				}
+			}
+		}
+		// fresh-process comparison: after everything above has run in this worker, every variant's output must still be
+		// what a brand-new process produces for it (a process-wide cache that the FIRST use poisons for good is invisible
+		// to comparisons made inside one process)
+		for xi, x := range vs {
+			if bases == nil || !c.Mine(int64(xi)) {
+				continue
+			}
+			late, _ := execute(fams, x, nil)
+			fresh, err := freshHash(x)
+			c.Eval(2)
+			if err != nil {
+				c.NotExhaustive("determinism: fresh-process baseline of family %s unavailable: %v", fams[x.Family].Name, err)
+				continue
+			}
+			c.Floor("fresh-process")
+			if lh := outputsHash(late); lh != fresh {
+				key := core.SanitizeKey(fmt.Sprintf("determinism|long-running-process|feature=%s", fams[x.Family].Name))
+				b, _ := json.Marshal(wrap("determinism", detReplay{FreshWant: lh, Variant: x, Base: x, Key: key}))
+				c.Violate(prop, key, fmt.Sprintf("chart family %q (values set %d): a worker that had rendered other charts before produces different outputs (hash %s) than a fresh process (hash %s); error in the worker: %q", fams[x.Family].Name, x.Values, lh, fresh, late.Err), json.RawMessage(b))
+				c.Outcome("fresh-process:differs")
+			} else {
+				c.Outcome("fresh-process:same")
 			}
 		}
 		c.Count("history_independence_ordered_pairs", int64(pairs))
